@@ -2,14 +2,18 @@
 from propslib import comp_scope
 
 PROP = dict(
-    extract=[],
-    lean_targets=["Chewing.Props.C09"],
+    extract=["capi_user"],
+    lean_targets=["Chewing.Props.C09", "Chewing.Props.C08CApi"],
     runs=[dict(bin="dict", timeout=1200, timeout_thorough=3000),
-          dict(bin="dictsql", features=["sqlite"], timeout=1200, timeout_thorough=3000)],
-    scope=comp_scope("dict", "dictsql"),
+          dict(bin="dictsql", features=["sqlite"], timeout=1200, timeout_thorough=3000),
+          # the map behaviour seen through the C user-phrase calls (add / remove / lookup / enumerate with arbitrary strings):
+          # records `capiuser …` + the statements of Props/C08CApi.lean evaluated on the real C context (`!oracle C09 new …`)
+          dict(bin="capi_props", tag="capi_props", args=["--histories", "300", "--calls", "40"], args_thorough=["--histories", "6000", "--calls", "40"])],
+    scope=comp_scope("dict", "dictsql", "capiuser"),
     level="proof",
     exhaustive=False,
-    rule="one evaluation = one step of a random operation history (<= 30 ops; add/update/remove/flush/reopen/close+open; "
+    rule="Records `capiuser …` (run capi_props, work package capiuser): one evaluation = one user-phrase or context-writing configuration call of a generated C-API history (chewing_userphrase_add / _remove / _lookup with arbitrary strings - mismatched lengths, unparsable / empty / NULL / non-UTF-8, phrases already there -, the enumeration triple, chewing_set_KBType, chewing_config_set_str, chewing_set_selKey with any len): the record carries what the REAL context enumerates before the call and the REAL return value / enumeration after it; Model/CApiUser.lean (Driver/CApiUser.lean) recomputes both; the statements of Props/C08CApi.lean (add success => looked up and enumerated, refusal => dictionary unchanged, remove, lookup = enumeration, purity) are evaluated on the real context (#stat user_add_success, user_add_refused, user_add_calls_with_mismatched_lengths, user_remove_success, user_lookup_found, user_records_*). "
+         "Otherwise: one evaluation = one step of a random operation history (<= 30 ops; add/update/remove/flush/reopen/close+open; "
          "4 keys related by prefix — 0, 1, 2 or 3 syllables — x 6 phrases, one beginning with U+10FFFF) on the real TrieBuf (in-memory, file-backed with the snapshot writer waited "
          "for), Trie, Layered (user layer in-memory or file-backed, every call made through Layered) or SqliteDictionary: "
          "the model replays the whole history and must reproduce the result of the step, the lookups (n in {0,1,2,MAX}, both "
